@@ -38,3 +38,20 @@ OBLIGATIONS += [
         desc="append, cat(empty Stream), append (new record group in a non-first Stream): Block iteration and locate(t) for symbolic t report stream number, number_in_stream, number_in_file and offsets of the model",
         bounds_q="concrete record sizes (7/100, 9/50), symbolic locate target; see harness comment for why sizes are concrete"),
 ]
+FI = dict(src="fileinfo.c", defs=[], units=[S + x for x in ["common/stream_flags_common.c"]],
+          flags=["--object-bits", "10"], timeout_q=280, timeout_t=1800,
+          hdefs=["lzma_index_decoder_init=vstub_idi", "lzma_index_total_size=vstub_its", "lzma_index_memused=vstub_imu", "lzma_index_stream_flags=vstub_isf", "lzma_index_stream_padding=vstub_isp", "lzma_index_cat=vstub_icat", "lzma_index_file_size=vstub_ifs", "lzma_index_end=vstub_iend"],
+          fp_restrict=["decode_index.function_pointer_call.1/idx_code"],
+          unwindset=[("file_info_decode", "^0", 4)], replace_calls=[("get_padding_size", "vstub_gps")],
+          stubs=["Index decoder = contract stub (consumes an arbitrary amount, OK or STREAM_END), lzma_index_total_size returns an arbitrary value (what a - possibly malicious - Index claims), other lzma_index_* calls succeed; get_padding_size returns an arbitrary count <= buffer size; lzma_bufcpy only advances positions and the Stream Header/Footer decoders return arbitrary verdicts and flags (contents are irrelevant to the position arithmetic under test)"])
+OBLIGATIONS += [
+    Obligation(name="file_info_reverse_seek", func="harness_fi_padding_seek", unwind=20, functions=["file_info_decode", "reverse_seek", "seek_to_pos", "fill_temp"],
+        desc="file-info decoder starting a backwards read from ANY target position in a file of ANY size: positions below 24 (no room for Stream Header + Footer) are DATA_ERROR (never a loop), the temporary buffer holds at least a footer's worth, a requested seek position is never beyond the file size, the walk never moves forwards",
+        bounds_q="all file sizes / positions; <= 16 input bytes per call", **FI),
+    Obligation(name="file_info_index_done", func="harness_fi_index_done", unwind=20, functions=["file_info_decode", "decode_index", "reverse_seek", "seek_to_pos"],
+        desc="file-info decoder when the Index of a Stream has been decoded, for ANY total Block size the Index claims: claims larger than the room before the Index are DATA_ERROR; otherwise the next target/seek position stays inside the file and moves backwards",
+        bounds_q="all claimed sizes, file sizes and positions", **FI),
+    Obligation(name="file_info_first_call", func="harness_fi_first_call", unwind=20, functions=["file_info_decode", "fill_temp", "reverse_seek"],
+        desc="first call of the file-info decoder for ANY file size and first 16 bytes: files shorter than a Stream Header are FORMAT_ERROR, sizes not a multiple of four are not walked, the first seek stays inside the file, never complete after the header alone",
+        bounds_q="all 64-bit file sizes", **FI),
+]
